@@ -3,11 +3,24 @@ import Holpy.C18.ProofsHyps
 namespace Holpy.C18
 open Tm
 
-theorem evalRule_sound' (I : Interp) (r : Rule) (cl : List Tm) (sizes : List Nat) (ps : List Seq) (s : Seq)
+theorem evalRule_sound' (I : Interp) (hI : I.LeOrder) (r : Rule) (cl : List Tm) (sizes : List Nat) (ps : List Seq) (s : Seq)
     (h : evalRule r cl sizes ps = .ok s) (hk : wellKinded r cl ps = true)
     (hp : ∀ p ∈ ps, p.holds I) : s.holds I := by
   cases r <;> simp only [evalRule] at h
   case thResolution => exact thResolution_sound I _ _ _ _ h hp
+  case eqReflexive => exact eqReflexive_sound I _ _ h
+  case laDisequality => exact laDisequality_sound I hI _ _ h (by
+    cases cl with
+    | nil => simp [laDisequality] at h
+    | cons g rest => cases rest with
+      | nil => simpa [wellKinded] using hk
+      | cons _ _ => simp [laDisequality] at h)
+  case laRwEq => exact laRwEq_sound I hI _ _ h (by
+    cases cl with
+    | nil => simp [laRwEq] at h
+    | cons g rest => cases rest with
+      | nil => simpa [wellKinded] using hk
+      | cons _ _ => simp [laRwEq] at h)
   case notOr => exact notOr_sound I _ _ _ h hp
   case notAnd => exact notAnd_sound I _ _ _ h hp
   case andRule => exact andRule_sound I _ _ _ h hp
@@ -67,6 +80,9 @@ theorem evalRule_hyps' (r : Rule) (cl : List Tm) (sizes : List Nat) (ps : List S
   case notIte2 => exact notIte2_hyps _ _ _ h
   case contraction => exact contraction_hyps _ _ _ h
   all_goals (intro x hx; exfalso)
+  case eqReflexive => simp [eqReflexive_hyps _ _ h] at hx
+  case laDisequality => simp [laDisequality_hyps _ _ h] at hx
+  case laRwEq => simp [laRwEq_hyps _ _ h] at hx
   case notNot => simp [notNot_hyps _ _ h] at hx
   case andPos => simp [andPos_hyps _ _ h] at hx
   case andNeg => simp [andNeg_hyps _ _ h] at hx
@@ -105,7 +121,7 @@ theorem lookupAll_mem (acc : List Seq) (is : List Nat) (ps : List Seq) (h : look
     · contradiction
 
 /-- invariant of `runProof`: every derived sequent holds and its hypotheses are assumed formulas -/
-theorem runProof_inv (I : Interp) (A : List Tm) (cmds : List Cmd) (acc res : List Seq)
+theorem runProof_inv (I : Interp) (hI : I.LeOrder) (A : List Tm) (cmds : List Cmd) (acc res : List Seq)
     (h : runProof cmds acc = .ok res)
     (hacc : ∀ s ∈ acc, s.holds I ∧ ∀ x ∈ s.hyps, x ∈ A)
     (hA : ∀ t ∈ assumptions cmds, t ∈ A) :
@@ -143,7 +159,7 @@ theorem runProof_inv (I : Interp) (A : List Tm) (cmds : List Cmd) (acc res : Lis
               · exact hacc s' hs'
               · simp only [List.mem_singleton] at hs'
                 subst hs'
-                refine ⟨evalRule_sound' I r cl sizes ps _ hs (by simpa using hk) (fun p hp => (hacc p (hmem p hp)).1), ?_⟩
+                refine ⟨evalRule_sound' I hI r cl sizes ps _ hs (by simpa using hk) (fun p hp => (hacc p (hmem p hp)).1), ?_⟩
                 intro x hx
                 obtain ⟨p, hp, hxp⟩ := evalRule_hyps' r cl sizes ps _ hs x hx
                 exact (hacc p (hmem p hp)).2 x hxp
